@@ -107,10 +107,12 @@ def stepEv (r : RS) (t : Nat) (e : E) : RS :=
       else r'
   | .park false => apply r .park "park return"
   | .park true =>
-    -- spurious wake-up: outside the theorem-bearing relation of PoolFull (budgeted in Pool.lean):
+    -- spurious wake-up: the step `StepS.spurious` of Props/C07Spurious (invariant, no lost wake-up and
+    -- no deadlock are proved for the relation that includes it):
     -- the caller simply re-checks the counter
-    if r.s.c = .park then { r with s := { r.s with c := .check }, spurious := r.spurious + 1 }
-    else { r with err := some "spurious park return while the caller is not parked" }
+    match spuriousFn r.s with
+    | some s' => { r with s := s', spurious := r.spurious + 1 }
+    | none => { r with err := some "spurious park return while the caller is not parked" }
   | .other => r
 
 def isFinal (s : Sys) : Bool :=
